@@ -1170,7 +1170,10 @@ impl<'a> Exec<'a> {
                 let k = ks_or_skip!(*ks);
                 // views / iterators / txs that reference the keyspace keep working in fjall;
                 // the harness drops its own iterators on it to keep handle accounting simple
-                match inst!().db.delete_keyspace(k.clone()) {
+                crate::faults::IN_DELETE.store(true, std::sync::atomic::Ordering::SeqCst);
+                let res = inst!().db.delete_keyspace(k.clone());
+                crate::faults::IN_DELETE.store(false, std::sync::atomic::Ordering::SeqCst);
+                match res {
                     Ok(()) => {
                         self.deleted_ids.push(k.id());
                         let i = self.inst.as_mut().unwrap();
